@@ -1,9 +1,10 @@
 import RegexVerif.Sexp
 import RegexVerif.Model.Facts
+import RegexVerif.Model.SetFacts
 import RegexVerif.Driver.SpecIO
 
 namespace RegexVerif.Driver
-open RegexVerif Sexp Spec Facts
+open RegexVerif Sexp Spec Facts SetFacts
 
 def anchorName : Anchor → String
   | .bol => "bol" | .eol => "eol" | .boundary => "boundary" | .nonboundary => "nonboundary"
@@ -13,6 +14,38 @@ def optAnchor : Option Anchor → Sexp
   | some a => .atom (anchorName a)
   | none => .atom "none"
 
+/-! rendering of symbolic sets: the same syntax the harness uses for the leaves of a pattern -/
+
+def clsSexp : Cls → Sexp
+  | .base neg rs ns => .list [.atom "base", ofBool neg,
+      .list (rs.map (fun p => .list [ofNat p.1, ofNat p.2])), .list (ns.map (fun p => .list [ofNat p.1, ofBool p.2]))]
+  | .diff a b => .list [.atom "diff", clsSexp a, clsSexp b]
+
+def predSexp : Pred → Sexp
+  | .one c ci => .list [.atom "one", ofNat c, ofBool ci]
+  | .notone c ci => .list [.atom "notone", ofNat c, ofBool ci]
+  | .set c ci => .list [.atom "set", clsSexp c, ofBool ci]
+
+def optSet : Option (List Pred) → Sexp
+  | none => .atom "none"
+  | some s => mk "some" (s.map predSexp)
+
+/-- the over-approximations of one (sub)pattern, left-to-right: `(first S?) (at (k S?)…) (prefixes (r…)…)
+    (cover 0|1)` — `cover` is `checkPrefixes E (prefixes norm …)`, the validator's verdict -/
+def setsOf (norm : Nat → Nat) (p : Pat) (ks : List Nat) (maxLen maxCount : Nat) (E : List (List Nat)) : List Sexp :=
+  let pre := (prefixes norm maxLen maxCount p).1
+  [mk "first" [optSet (firstSet p false)],
+   mk "at" (ks.map (fun k => .list [ofNat k, optSet (setAt p k)])),
+   mk "prefixes" (pre.map ofNats),
+   mk "cover" [ofBool (checkPrefixes E pre)]]
+
+/-- the rune normalisation given by a table `(rune representative)…` (identity elsewhere): the harness
+    sends `(r, unicode.ToLower r)` for the ordinal-ignore-case lists, nothing for the case-sensitive ones -/
+def normOf (tbl : List (Nat × Nat)) (r : Nat) : Nat :=
+  match tbl.find? (fun p => p.1 == r) with
+  | some p => p.2
+  | none => r
+
 /-- `(c04 facts <rtl 0|1> <pat>)` →
     `(ok (minlen N) (maxlen N|-1) (lead A|none) (trail A|none) (prefix (b…) 0|1))`
 
@@ -20,7 +53,16 @@ def optAnchor : Option Anchor → Sexp
     * `lead`: the published `LeadingAnchor` (`findLeadingOrTrailingAnchor(root, true)`, `Bol` filtered
       out for right-to-left); `trail`: `findLeadingOrTrailingAnchor(root, false)`;
     * `prefix`: the BYTES of `findPrefix(root)` and the return value of `tryFindPrefix` — the model of
-      the left-to-right analysis, meaningful for `rtl = 0` only. -/
+      the left-to-right analysis, meaningful for `rtl = 0` only.
+
+    `(c04 sets <rtl 0|1> <pat> (k…) <maxLen> <maxCount> ((r…)…) ((r n)…))` → the proved over-approximations of
+    `Model/SetFacts.lean` for the harness to compare published sets with (leg V):
+    right-to-left `(ok (first S?))`; left-to-right
+    `(ok (first S?) (at (k S?)…) (prefixes (r…)…) (cover 0|1) (look none))` or, when `leadLook` finds a
+    leading positive lookahead, `… (look (first S?) (at …) (prefixes …) (cover 0|1))` with the same
+    four entries for the lookahead's body.  `S? = none | (some pred…)` (a union of leaf tests), the last
+    two arguments are the published string list `E` for the `cover` verdicts and the normalisation table
+    of the prefix strings. -/
 def handleC04 (args : List Sexp) : String :=
   match args with
   | [.atom "facts", rtl, p] =>
@@ -37,6 +79,17 @@ def handleC04 (args : List Sexp) : String :=
         mk "trail" [optAnchor (trailingAnchor rtl p)],
         mk "prefix" [ofNats pre.1, ofBool pre.2]])
     | _, _ => "(bad-op)"
+  | [.atom "sets", rtl, p, ks, maxLen, maxCount, .list es, .list tbl] =>
+    match rtl.bool?, pat? p, ks.nats?, maxLen.nat?, maxCount.nat?, es.mapM (·.nats?), tbl.mapM pairNat? with
+    | some rtl, some p, some ks, some maxLen, some maxCount, some E, some tbl =>
+      if rtl then toString (Sexp.list [.atom "ok", mk "first" [optSet (firstSet p true)]])
+      else
+        let norm := normOf tbl
+        let look : Sexp := match (leadLook p).1 with
+          | some b => mk "look" (setsOf norm b ks maxLen maxCount E)
+          | none => mk "look" [.atom "none"]
+        toString (Sexp.list ([.atom "ok"] ++ setsOf norm p ks maxLen maxCount E ++ [look]))
+    | _, _, _, _, _, _, _ => "(bad-op)"
   | _ => "(bad-op)"
 
 end RegexVerif.Driver
